@@ -304,69 +304,101 @@ example : ∃ s e, Monitor.Reach 999999999 0 s ∧ e ∈ s.flog := by
 
 /-! ## Thread -/
 
+/-- a finished thread's result never changes (thread ids are not reused) -/
+theorem Thr.finished_stable {s s' : Thr.St} {j u : Tid} {a : Thr.Act} {v : Nat}
+    (hv : s.status j = .finished v) (hs : Thr.step s u a = some s') : s'.status j = .finished v := by
+  cases a with
+  | begin_ =>
+    simp only [Thr.step] at hs
+    split at hs
+    · rename_i hc; simp at hs; subst hs
+      have : j ≠ u := by intro e; subst e; simp [hv] at hc
+      simp [upd, this, hv]
+    · simp at hs
+  | exit v' =>
+    simp only [Thr.step] at hs
+    split at hs
+    · rename_i hc; simp at hs; subst hs
+      have : j ≠ u := by intro e; subst e; simp [hv] at hc
+      simp [upd, this, hv]
+    · simp at hs
+  | api a =>
+    cases a with
+    | tick q => simp [Thr.step] at hs; subst hs; exact hv
+    | call op =>
+      simp only [Thr.step] at hs
+      split at hs
+      · cases op <;> (simp only [] at hs; split at hs <;> simp [Thr.done] at hs <;> subst hs <;> exact hv)
+      · simp at hs
+    | run alt =>
+      simp only [Thr.step] at hs
+      cases hp : s.pc u <;> simp only [hp] at hs
+      · simp at hs
+      · rename_i k
+        (repeat' split at hs) <;> simp [Thr.done] at hs <;> subst hs
+        · rename_i hc
+          have : j ≠ k := by intro e; subst e; simp [hv] at hc
+          simp [upd, this, hv]
+        · exact hv
+      · rename_i k
+        split at hs
+        · simp at hs
+        · cases hst : s.status k <;> simp [hst, Thr.done] at hs
+          subst hs; exact hv
+      · rename_i k
+        split at hs
+        · simp at hs
+        · cases hst : s.status k <;> simp [hst, Thr.done] at hs
+          subst hs; exact hv
+
 /-- Thread::join returns the thread function's result after it has finished: the join step is enabled only when
     the target thread has finished, it then returns exactly the value the function returned, and a finished
-    thread's result never changes. -/
+    thread's result never changes.  (Every state, every thread; also when pthread_create may fail.) -/
 theorem join_returns_result (s : Thr.St) (t j : Tid) (hpc : s.pc t = .join j) :
     (∀ alt s', Thr.step s t (.api (.run alt)) = some s' →
        ∃ v, s.status j = .finished v ∧ s'.ret t = some (.num v) ∧ s'.pc t = .idle ∧ s'.handle j = false) ∧
     (∀ v, s.status j = .finished v → ∃ s', Thr.step s t (.api (.run 0)) = some s') ∧
     (∀ v u a s', s.status j = .finished v → Thr.step s u a = some s' → s'.status j = .finished v) := by
-  refine ⟨?_, ?_, ?_⟩
+  refine ⟨?_, ?_, fun v u a s' hv hs => Thr.finished_stable hv hs⟩
   · intro alt s' hs
-    simp only [Thr.step] at hs
+    simp only [Thr.step, hpc] at hs
     split at hs
     · simp at hs
-    · simp only [hpc] at hs
-      cases hst : s.status j <;> simp [hst] at hs
+    · cases hst : s.status j <;> simp [hst] at hs
       subst hs
       exact ⟨_, rfl, by simp [Thr.done], by simp [Thr.done], by simp [Thr.done]⟩
   · intro v hv
     cases hs : Thr.step s t (.api (.run 0)) with
     | none => simp [Thr.step, hpc, hv] at hs
     | some s' => exact ⟨_, rfl⟩
-  · intro v u a s' hv hs
-    cases a with
-    | begin_ =>
-      simp only [Thr.step] at hs
-      split at hs
-      · rename_i hc; simp at hs; subst hs
-        have : j ≠ u := by intro e; subst e; simp [hv] at hc
-        simp [upd, this, hv]
-      · simp at hs
-    | exit v' =>
-      simp only [Thr.step] at hs
-      split at hs
-      · rename_i hc; simp at hs; subst hs
-        have : j ≠ u := by intro e; subst e; simp [hv] at hc
-        simp [upd, this, hv]
-      · simp at hs
-    | api a =>
-      cases a with
-      | tick q => simp [Thr.step] at hs; subst hs; exact hv
-      | call op =>
-        simp only [Thr.step] at hs
-        split at hs
-        · cases op <;> (simp only [] at hs; split at hs <;> simp [Thr.done] at hs <;> subst hs <;> exact hv)
-        · simp at hs
-      | run alt =>
-        simp only [Thr.step] at hs
-        split at hs
-        · simp at hs
-        · cases hp : s.pc u <;> simp only [hp] at hs
-          · simp at hs
-          · rename_i k
-            split at hs
-            · rename_i hc; simp [Thr.done] at hs; subst hs
-              have : j ≠ k := by intro e; subst e; simp [hv] at hc
-              simp [upd, this, hv]
-            · simp at hs
-          · rename_i k
-            cases hst : s.status k <;> simp [hst, Thr.done] at hs
-            subst hs; exact hv
+
+/-- Thread::~Thread() of an object that still holds a thread waits for that thread to finish (the join inside the
+    destructor), and Thread::start reports a failing pthread_create as `false` without attaching a thread. -/
+theorem thread_dtor_waits_and_failed_start_is_clean (s : Thr.St) (t j : Tid) :
+    (s.pc t = .dtor j → ∀ alt s', Thr.step s t (.api (.run alt)) = some s' →
+       (∃ v, s.status j = .finished v) ∧ s'.pc t = .idle ∧ s'.handle j = false) ∧
+    (s.pc t = .create j → ∀ s', Thr.step s t (.api (.run 1)) = some s' →
+       s'.ret t = some (.bool false) ∧ s'.handle = s.handle ∧ s'.status = s.status ∧ s'.cfail + 1 = s.cfail) := by
+  refine ⟨?_, ?_⟩
+  · intro hpc alt s' hs
+    simp only [Thr.step, hpc] at hs
+    split at hs
+    · simp at hs
+    · cases hst : s.status j <;> simp [hst] at hs
+      subst hs
+      exact ⟨⟨_, rfl⟩, by simp [Thr.done], by simp [Thr.done]⟩
+  · intro hpc s' hs
+    simp only [Thr.step, hpc] at hs
+    simp at hs
+    obtain ⟨hc, rfl⟩ := hs
+    refine ⟨by simp [Thr.done], rfl, rfl, ?_⟩
+    simp [Thr.done]; omega
 
 example : ∃ s : Thr.St, s.pc 0 = .join 1 ∧ s.status 1 = .finished 7 :=
   ⟨{ Thr.init with pc := upd Thr.init.pc 0 (.join 1), status := upd Thr.init.status 1 (.finished 7) }, rfl, rfl⟩
+
+example : ∃ s s' : Thr.St, s.pc 0 = .create 1 ∧ Thr.step s 0 (.api (.run 1)) = some s' :=
+  ⟨{ Thr.init 1 with pc := upd (Thr.init 1).pc 0 (.create 1) }, _, rfl, rfl⟩
 
 /-! ## liveness under fairness (infinite runs, Fair.lean)
 
